@@ -248,7 +248,9 @@ impl AymPrecise {
         self.fir_index = (self.fir_index + 1) % (FIR_SIZE / DECIMATE_FACTOR - 1);
         for i in (0..DECIMATE_FACTOR).rev() {
             self.x += self.step;
-            if self.x >= 1.0 {
+            // Several chip ticks may fall into one oversampled step when the target sample
+            // rate is low (step > 1.0), all of them have to be consumed
+            while self.x >= 1.0 {
                 self.x -= 1.0;
                 self.interpolator_left.y[0] = self.interpolator_left.y[1];
                 self.interpolator_left.y[1] = self.interpolator_left.y[2];
